@@ -61,7 +61,7 @@ def write(prop, tier, vseed, meta, mg, det, workers, wall, *, n_violation_classe
         "wall_s": round(wall, 2),
         "violations": n_violation_classes,
     }
-    d = os.path.join(VERIF_ROOT, "evidence")
+    d = os.environ.get("DSIM_EVIDENCE_DIR") or os.path.join(VERIF_ROOT, "evidence")
     os.makedirs(d, exist_ok=True)
     path = os.path.join(d, f"{prop}.json")
     tmp = path + ".tmp"
